@@ -140,8 +140,9 @@ def gen_edit(rng, content, n=(1, 3)):
             ops.append([op, rng.choice(live_data), str(rng.choice([1, 2, 4, 5]))])
             continue
         if op == "remove_data":
+            # last edit of the round: the harness' own scale_parameter reads the model, which a removal may break
             ops.append([op, rng.choice(live_data), None])
-            continue
+            break
         if op in ("update_parameter", "update_parameters", "scale_parameter"):
             ops.append([op, rng.choice(plain_p), str(rng.choice([1, 2, 4, 5]))])
         elif op == "update_variable":
